@@ -14,6 +14,7 @@ import (
 	"runtime"
 	"strings"
 	"time"
+	"verif/shim/vsync"
 
 	"github.com/hedzr/is/term/color"
 	"github.com/hedzr/logg/slog"
@@ -63,7 +64,7 @@ func c09new(caller bool, reentw ...bool) *c09world {
 	reentNoPoolChoice = true
 	fl := (slog.LstdFlags | slog.LnoInterrupt) &^ slog.Lcaller
 	if caller {
-		fl |= slog.Lcaller
+		fl |= slog.Lcaller | slog.LattrsR // (the inherit-attributes flag goes with the caller flag: both on or both off)
 	}
 	slog.SetFlags(fl)
 	// the directory of this source file is a known path: the caller's file name then has a
@@ -85,6 +86,8 @@ func c09new(caller bool, reentw ...bool) *c09world {
 	root := slog.VerifEntryOf(slog.New("root"))
 	mk("probed", root.New("probed\x01\u00e9").SetAttrs(slog.NewAttr("own", 1), slog.NewAttr("own2", "two"), slog.Group("og", "m", 1, "l", 2)))
 	mk("sibling", root.New("sibling").SetAttrs(slog.NewAttr("sib", "x"), slog.Group("sg", "a", 1)))
+	// a child of the probed logger that binds one of its parent's keys again (it only ever logs in histories)
+	mk("kid", w.loggers["probed"].New("kid").SetAttrs(slog.NewAttr("own", "kid-value"), slog.NewAttr("kk", 3)))
 	mk("default", slog.VerifEntryOf(slog.Default()))
 	return w
 }
@@ -114,7 +117,16 @@ func (w *c09world) issue(k c09call) {
 		l.WriteThru(bg, sev, fixedTime, 0, "first line\nsecond line\n", slog.Attrs{slog.NewAttr("err", errors.New("boom")), slog.NewAttr("k", 1)})
 	case "egroup":
 		// an empty group that sorts last, and one in the middle
-		l.WriteThru(bg, sev, fixedTime, 0, "with empty groups", slog.Attrs{slog.NewAttr("a", 1), slog.Group("m"), slog.NewAttr("n", 2), slog.Group("zone")})
+		l.WriteThru(bg, sev, fixedTime, 0, "with empty groups", slog.Attrs{slog.NewAttr("a", 1), slog.Group("m"), slog.NewAttr("n", 2), slog.NewAttr("ag", slog.Attrs{slog.NewAttr("id", 7), slog.NewAttr("in", slog.Attrs{slog.NewAttr("x", 1)})}), slog.Group("zone")})
+	case "egroup-x17":
+		// the same small record seventeen times in a row (empty groups of both kinds): state that needs a longer life
+		// than a handful of calls. The pool hands the stored context back during the run (no choice points inside it).
+		prev := vsync.NoPoolChoice
+		vsync.NoPoolChoice = true
+		for i := 0; i < 17; i++ {
+			l.WriteThru(bg, sev, fixedTime, 0, "again", slog.Attrs{slog.NewAttr("e", slog.Attrs{}), slog.Group("g"), slog.NewAttr("i", i)})
+		}
+		vsync.NoPoolChoice = prev
 	case "huge":
 		// a record far beyond any buffer size a pool may want to keep (a dumped payload)
 		l.WriteThru(bg, sev, fixedTime, 0, "a dumped payload follows", slog.Attrs{slog.NewAttr("body", c09huge), slog.NewAttr("after", 1)})
@@ -165,7 +177,10 @@ func c09calls(thorough bool) (hist, probes []c09call) {
 	// history alphabet: a representative subset issued on the probed logger, a sibling and the default logger
 	for _, f := range []string{"color", "json", "logfmt"} {
 		for _, s := range []slog.Level{slog.ErrorLevel, c09Colored, slog.TraceLevel} {
-			for _, sh := range []string{"rich", "rich-eol", "egroup", "verb", "verb-small", "plain", "reent", "verb-scoped-flags", "value-panics", "zone-instant", "huge"} {
+			for _, sh := range []string{"rich", "rich-eol", "egroup", "verb", "verb-small", "plain", "reent", "verb-scoped-flags", "value-panics", "zone-instant", "huge", "egroup-x17"} {
+				if sh == "egroup-x17" && (s != slog.ErrorLevel || !thorough && f != "json") {
+					continue
+				}
 				if sh == "huge" && (s != slog.ErrorLevel || !thorough && f != "color") {
 					continue
 				}
@@ -185,13 +200,16 @@ func c09calls(thorough bool) (hist, probes []c09call) {
 					continue
 				}
 				for _, tg := range []string{"probed", "sibling", "default"} {
-					if !thorough && sh == "huge" && tg != "sibling" {
+					if !thorough && (sh == "huge" || sh == "egroup-x17") && tg != "sibling" {
 						continue
 					}
 					if !thorough && tg == "default" && f != "color" {
 						continue
 					}
 					hist = append(hist, c09call{f, int(s), sh, tg})
+				}
+				if (sh == "verb" || sh == "verb-small" && thorough) && s == slog.ErrorLevel && (thorough || f == "logfmt") {
+					hist = append(hist, c09call{f, int(s), sh, "kid"})
 				}
 			}
 		}
@@ -292,6 +310,9 @@ func c09run(c *Ctx) {
 		for _, h := range hist {
 			if len(p) == 2 && h.Shape != "rich" && h.Shape != "reent" && h.Shape != "value-panics" && h.Shape != "zone-instant" && h.Shape != "verb-scoped-flags" && h.Shape != "verb" && h.Shape != "verb-small" && h.Shape != "egroup" && h.Shape != "rich-eol" {
 				continue // third history element: the shapes that touch the most state
+			}
+			if !c.Thorough() && len(p) == 1 && (h.Shape == "huge" || h.Shape == "egroup-x17" || h.Target == "kid") {
+				continue // quick: these only as the first element of a history
 			}
 			if !c.Thorough() && len(p) == 1 && (h.Shape == "plain" || (h.Shape == "rich" || h.Shape == "rich-eol" || h.Shape == "egroup") && h.Target != "probed" || slog.Level(h.Sev) == slog.TraceLevel) {
 				continue // quick: second history element from the state-heavy half of the alphabet
